@@ -211,6 +211,15 @@ impl<E: ElemT> TableDrv<E> {
                 }
             }
         }
+        // reference for the shrink contract: what a fresh with_capacity(max(len, m)) holds (measured, not computed)
+        if ev.op == "shrink_to" || ev.op == "t_shrink_to_fit" {
+            if let Some(m) = self.tabs[ev.t - 1].as_ref() {
+                let mm = if ev.op == "shrink_to" { ev.n.max(0) as usize } else { m.len() };
+                let need = m.len().max(mm);
+                let fresh = if need == 0 { 0 } else { HashTable::<E, CheckingAlloc>::with_capacity_in(need, CheckingAlloc).allocation_size() };
+                ev.r = vec![fresh as i64];
+            }
+        }
         env::begin_window();
         env::arm(&ev.fa, ev.fk);
         let res = catch_unwind(AssertUnwindSafe(|| self.body(&mut ev)));
